@@ -669,4 +669,6 @@ pub fn run(e: &Engine) {
         |c| serde_json::to_value(c).unwrap(),
         check_stored,
     );
+    e.fuzz_corpus("c13_unseal");
+    e.fuzz_campaign("c13_unseal", 1000000);
 }
